@@ -16,7 +16,9 @@ fn project_err(e: PredicatesError<SimErr>) -> Verdict {
     match e {
         PredicatesError::Failed(errs) => {
             let mut sols = BTreeMap::new();
+            let mut order = Vec::new();
             for (ix, pe) in errs.0 {
+                order.push(ix);
                 let se = match pe {
                     PredicateError::InvalidNodeEdges(_) => SolErr::InvalidGraph,
                     PredicateError::ProgramErrors(pes) => {
@@ -50,7 +52,7 @@ fn project_err(e: PredicatesError<SimErr>) -> Verdict {
                 }
                 sols.insert(ix, se);
             }
-            Verdict::Err { sols }
+            Verdict::Err { sols, order }
         }
         PredicatesError::GasOverflowed => Verdict::Other("GasOverflowed".into()),
         PredicatesError::ExistingMutations => Verdict::Other("ExistingMutations".into()),
